@@ -49,7 +49,13 @@ def _starts_with_power(text):
     """Whether ``text`` begins with ``<atom>**``, where an atom is a name or a number
     (optionally followed by a parenthesised argument) or a parenthesised group."""
     i = 0
-    while i < len(text) and (text[i].isalnum() or text[i] in "_."):
+    number = text[:1].isdigit() or text[:1] == "."
+    while i < len(text) and (
+        text[i].isalnum()
+        or text[i] in "_."
+        # the sign of the exponent of a number in scientific notation (2.0e-5)
+        or (number and text[i] in "+-" and text[i - 1] in "eE")
+    ):
         i += 1
 
     if i < len(text) and text[i] == "(":
